@@ -233,7 +233,8 @@ fn index_data_len(d: &[u8], at: usize) -> Option<usize> {
     if end > d.len() {
         return None;
     }
-    Some(end - data0 - 1)
+    // a last offset of 0 (not 1-based: a broken INDEX) has no data length
+    (end - data0).checked_sub(1)
 }
 
 /// Lengths of the charstrings of a CFF 1 table (independent INDEX walk).
